@@ -159,6 +159,10 @@ class Config:
 
 
 def _clone_cell(c):
+    from .native import HNative
+    if isinstance(c, HNative):
+        import copy
+        return HNative(copy.deepcopy(c.obj))
     if isinstance(c, HList):
         return HList(c.items, c.oneshot)
     if isinstance(c, HDict):
@@ -167,6 +171,82 @@ def _clone_cell(c):
         d.value_kind = c.value_kind
         return d
     return HObj(c.cls, c.fields, c.label)
+
+
+class _Kill(BaseException):
+    """unwinds the body of a generator that nobody will resume"""
+
+
+class _Coroutine:
+    """The body of one generator object, run in its own thread with strict hand-over (exactly one of consumer / body runs
+    at any time, so the abstract run is never touched concurrently)."""
+    _local = None
+
+    def __init__(self, interp, run, fi, env, qualname):
+        import threading
+        self.interp, self.run, self.fi, self.env, self.qualname = interp, run, fi, env, qualname
+        self.thread = None
+        self.go = threading.Semaphore(0)
+        self.back = threading.Semaphore(0)
+        self.msg = None
+        self.kill = False
+        self.finished = False
+        run.memo.setdefault("@coroutines", []).append(self)
+
+    @staticmethod
+    def current():
+        import threading
+        return getattr(threading.current_thread(), "wsverif_coroutine", None)
+
+    def _body(self):
+        self.go.acquire()
+        try:
+            if self.kill:
+                return
+            try:
+                self.interp.exec_block(self.run, self.fi.node.body, self.env)
+                self.msg = ("return", None)
+            except ReturnSig:
+                self.msg = ("return", None)
+            except _Kill:
+                self.msg = ("return", None)
+            except BaseException as e:   # exceptions of the analysed code and control signals alike travel to the consumer
+                self.msg = ("exc", e)
+        finally:
+            self.finished = True
+            self.back.release()
+
+    def resume(self):
+        import threading
+        if self.finished:
+            return ("return", None)
+        if self.thread is None:
+            threading.stack_size(256 * 1024 * 1024)
+            self.thread = threading.Thread(target=self._body, daemon=True)
+            self.thread.wsverif_coroutine = self
+            self.thread.start()
+        self.run.stack.append(self.qualname)
+        try:
+            self.go.release()
+            self.back.acquire()
+        finally:
+            self.run.stack.pop()
+        return self.msg
+
+    def suspend(self, value):
+        self.msg = ("yield", value)
+        self.back.release()
+        self.go.acquire()
+        if self.kill:
+            raise _Kill()
+
+    def close(self):
+        if self.thread is not None and not self.finished:
+            self.kill = True
+            self.go.release()
+            self.back.acquire()
+            self.thread.join(1.0)
+        self.finished = True
 
 
 class Run:
@@ -338,6 +418,8 @@ class Interp:
                 out = None
             except RecursionError:
                 raise AnalysisError("interpreter recursion limit")
+            for co in run.memo.get("@coroutines", []):
+                co.close()   # generator bodies that are still suspended are unwound
             # schedule alternatives of every decision made beyond the script
             for i in range(len(script), len(run.decisions)):
                 d = run.decisions[i]
@@ -892,8 +974,26 @@ class Interp:
         if isinstance(itv, Tup):
             yield from itv.items
             return
+        if self.is_generator_obj(run, itv):
+            n = 0
+            while True:
+                try:
+                    x = self.generator_next(run, itv, node)
+                except RaiseSig as r:
+                    if self.exc_class_name(run, r.exc) == "builtins.StopIteration":
+                        return
+                    raise
+                yield x
+                n += 1
+                if n > max(self.cfg.loop_unroll, 64):   # a loop over it is cut by the loop's own bound long before
+                    raise CutoffSig(f"generator consumed more than {n} times at {self.locof(node)}")
         if isinstance(itv, Ref):
             c = run.cell(itv)
+            from . import native
+            if isinstance(c, native.HNative):
+                for x in list(c.obj):
+                    yield native.from_py(self, run, x)
+                return
             if isinstance(c, HList) and c.oneshot:
                 while c.items:  # an iterator: every element is handed out once, a second loop over it finds nothing
                     yield c.items.pop(0)
@@ -1409,6 +1509,8 @@ class Interp:
             return v.qualname
         if isinstance(v, Ref):
             c = run.cell(v)
+            if not isinstance(c, (HObj, HDict, HList)):
+                return type(getattr(c, "obj", c)).__name__
             if isinstance(c, HObj):
                 return c.label or (c.cls or "obj")
             if isinstance(c, HDict):
@@ -1419,6 +1521,9 @@ class Interp:
     def getattr(self, run, base: Value, name: str, node) -> Value:
         if isinstance(base, Ref):
             c = run.cell(base)
+            from . import native
+            if isinstance(c, native.HNative):
+                return native.getattr_(self, run, base, name, node)
             if isinstance(c, HObj) and c.cls == "builtins.bytearray":
                 return App("attr", (base, C(name)))
             if isinstance(c, HObj):
@@ -1527,17 +1632,41 @@ class Interp:
         self.bind_params(run, fi, env, args, kwargs, node)
         if fn.qualname in self.cfg.record_calls:
             run.effect(f"enter:{fn.qualname}", tuple(args), kwargs, node=node)
+        if self._is_generator(fi):
+            # a generator function returns a generator object; its body runs (in its own coroutine) when the consumer asks
+            g = run.alloc(HObj("builtins.generator", {"@dead": FALSE}, "generator"))
+            run.memo[("generator", g.addr)] = _Coroutine(self, run, fi, env, fn.qualname)
+            return g
         run.stack.append(fn.qualname)
-        is_gen = self._is_generator(fi)
-        if is_gen:
-            env.vars["@yielded"] = run.alloc(HList([]))
         try:
             self.exec_block(run, fi.node.body, env)
-            return env.vars["@yielded"] if is_gen else NONE
+            return NONE
         except ReturnSig as r:
-            return env.vars["@yielded"] if is_gen else r.value
+            return r.value
         finally:
             run.stack.pop()
+
+    def generator_next(self, run, g: Ref, node, default=None):
+        """next(g): resume the generator's body until its next yield.  An exception that leaves the body, or its end,
+        finishes the generator for good (Python semantics)."""
+        c = run.cell(g)
+        co = run.memo[("generator", g.addr)]
+        if c.fields.get("@dead") == TRUE:
+            if default is not None:
+                return default
+            self.raise_builtin(run, "StopIteration", node)
+        kind, payload = co.resume()
+        if kind == "yield":
+            return payload
+        c.fields["@dead"] = TRUE
+        if kind == "return":
+            if default is not None:
+                return default
+            self.raise_builtin(run, "StopIteration", node)
+        raise payload   # an exception (of the analysed code or a control signal of the exploration) left the body
+
+    def is_generator_obj(self, run, v) -> bool:
+        return isinstance(v, Ref) and ("generator", v.addr) in run.memo
 
     def _is_generator(self, fi) -> bool:
         g = getattr(fi, "_is_gen", None)
@@ -1547,19 +1676,18 @@ class Interp:
         return g
 
     def ex_Yield(self, run, node, env):
-        """Generator bodies are run eagerly: the values yielded are collected in order (sound for generators whose
-        body has no effects that must interleave with the consumer; effects are still recorded, in producer order)."""
-        y = env.lookup("@yielded")
-        if y is None:
+        co = _Coroutine.current()
+        if co is None:
             raise Unsupported(f"yield outside an analysed generator at {self.locof(node)}")
-        run.cell(y).items.append(self.eval(run, node.value, env) if node.value is not None else NONE)
+        co.suspend(self.eval(run, node.value, env) if node.value is not None else NONE)
         return NONE
 
     def ex_YieldFrom(self, run, node, env):
-        y = env.lookup("@yielded")
-        if y is None:
+        co = _Coroutine.current()
+        if co is None:
             raise Unsupported(f"yield from outside an analysed generator at {self.locof(node)}")
-        run.cell(y).items.extend(list(self.iterate(run, self.eval(run, node.value, env), node)))
+        for x in self.iterate(run, self.eval(run, node.value, env), node):
+            co.suspend(x)
         return NONE
 
     def _default(self, run, fi, pname, expr, denv):
